@@ -3,6 +3,8 @@ import Frugal.Proofs.BitsetLemmas
 import Frugal.Proofs.ReaderProps
 import Frugal.Proofs.EncodeRefine
 import Frugal.Props.Instances
+import Frugal.Proofs.DecodeRefine
+import Frugal.Proofs.ReqEverywhere
 namespace Frugal.C09
 open Frugal
 theorem ids_in_range (i : Nat) (hi : i < 65536) : bsInRange Generated.params i = true :=
@@ -50,4 +52,34 @@ theorem missing_is_required_and_absent (fields : List Field) (seen : List Nat) (
 theorem required_always_written (sd : SDesc) (f : Field) (v : Val) (h : f.req = .required) :
     fieldWritten sd f v = true := by
   simp [fieldWritten, h]
+/-- **at any nesting level, inside any container**: when `DecodeObject` accepts a well-formed
+    message, every struct in it that is read into a destination — the top level, struct fields, list /
+    set elements, map keys and values, at any depth — carried every field its type declares required,
+    with the declared wire type (`reqOK`, Proofs/ReqEverywhere.lean) -/
+theorem accepted_means_required_everywhere (S : Schema) (hS : S.ok = true) (sid : Nat)
+    (fs : List (Nat × TVal)) (trailing : Bytes) (dest v : Val) (n : Nat) (hw : wfFields fs = true)
+    (h : decodeM Generated.params S sid (ser (.strct fs) ++ trailing) dest = .ok (v, n)) :
+    reqOK S (.strct sid) (.strct fs) = true := by
+  rw [decodeM_refines Instances.params_valid S hS sid fs trailing dest hw] at h
+  obtain ⟨w0, h0, _⟩ := mapv_ok_inv _ _ _ h
+  exact readMessage_reqOK Generated.params S hS sid fs trailing.length dest w0 h0
+
+/-- … equivalently: a struct lacking a required field anywhere on a known path is rejected -/
+theorem missing_required_anywhere_is_rejected (S : Schema) (hS : S.ok = true) (sid : Nat)
+    (fs : List (Nat × TVal)) (trailing : Bytes) (dest : Val) (hw : wfFields fs = true)
+    (hmiss : reqOK S (.strct sid) (.strct fs) = false) :
+    (decodeM Generated.params S sid (ser (.strct fs) ++ trailing) dest).isOk = false := by
+  cases hd : decodeM Generated.params S sid (ser (.strct fs) ++ trailing) dest with
+  | ok p =>
+    obtain ⟨v, n⟩ := p
+    have := accepted_means_required_everywhere S hS sid fs trailing dest v n hw hd
+    rw [hmiss] at this
+    cases this
+  | err e => rfl
+  | panic k => rfl
+
+/-- the nested case is not vacuous: a list element lacking its required field -/
+example : let S : Schema := [{ fields := [{ id := 1, req := .dflt, ty := .list false (.strct 1) }] },
+                             { fields := [{ id := 7, req := .required, ty := .base .i32 }] }]
+    reqOK S (.strct 0) (.strct [(1, .list 12 [.strct [(7, .i32 5)], .strct []])]) = false := by decide
 end Frugal.C09
